@@ -8,7 +8,9 @@ transitions (internal and external), for each transition whether its guard is af
 events.  Oracle: entry/idle reference times derived from the returned macro steps (time of the step that
 entered the state / in which it was entered or was the source of a fired transition); a time-guarded
 transition fires iff now - d >= reference (under C01's selection rule); every `time` seen by code, the
-'step started' meta-event and MacroStep.time equal the clock value sampled at the call.
+'step started' meta-event and MacroStep.time equal the clock value sampled at the call; after()/idle() in
+state invariants, in state postconditions (state just exited) and in transition postconditions (source exited)
+agree with the same reference times.
 """
 from ..symex import And, Or, Not, Iff, Eq
 from .. import chartgen as cg
